@@ -76,6 +76,24 @@ async fn verif_replay_chan_registry() {
         tokio::time::sleep(std::time::Duration::from_millis(150)).await;
         for kind in ["message", "start", "complete", "error"] { if count(&log, &format!("all:{how}:{kind}"), "x2") != 0 { bad.push(format!("REPLAY-FAIL all kinds ({how}): the {kind} handler of the channel still received x2 after {how}")); } }
     }
+    // the channel id is free text: an EMPTY id is an id like any other -- registering under it again replaces the handler, close / unsub stop deliveries to it
+    for how in ["close", "unsub"] {
+        let ch = mk("");
+        let reg_e = |name: &str| { let l = log.clone(); let n = format!("empty:{how}:{name}"); ch.on_message(move |e: &crate::Event<Message>| { l.lock().unwrap().push((n.clone(), e.id.clone())); }); };
+        reg_e("first");
+        emitter.emit_message(&msg("e1"));
+        tokio::time::sleep(std::time::Duration::from_millis(150)).await;
+        let n = count(&log, &format!("empty:{how}:first"), "e1"); if n != 1 { bad.push(format!("REPLAY-FAIL empty channel id ({how}): the handler received e1 {n} time(s), expected once")); }
+        reg_e("second");
+        emitter.emit_message(&msg("e2"));
+        tokio::time::sleep(std::time::Duration::from_millis(150)).await;
+        if count(&log, &format!("empty:{how}:first"), "e2") != 0 { bad.push(format!("REPLAY-FAIL empty channel id ({how}): the replaced handler still received e2 (re-registering duplicated the deliveries)")); }
+        let n = count(&log, &format!("empty:{how}:second"), "e2"); if n != 1 { bad.push(format!("REPLAY-FAIL empty channel id ({how}): the new handler received e2 {n} time(s)")); }
+        if how == "close" { ch.close(); } else { engine.executor().msg().unsub("").unwrap(); }
+        emitter.emit_message(&msg("e3"));
+        tokio::time::sleep(std::time::Duration::from_millis(150)).await;
+        for h in ["first", "second"] { if count(&log, &format!("empty:{how}:{h}"), "e3") != 0 { bad.push(format!("REPLAY-FAIL empty channel id ({how}): handler {h} still received e3 after the channel was closed / unsubscribed")); } }
+    }
     for b in bad.iter().take(12) { println!("{b}"); }
     assert!(bad.is_empty(), "{} difference(s)", bad.len());
 }
